@@ -461,7 +461,7 @@ func (d *MemDir) CopyFiles(fs []File) error {
 			return err
 		}
 	}
-	sum, err := NewHashFile(fs)
+	sum, err := d.Checksum()
 	if err != nil {
 		return err
 	}
